@@ -327,3 +327,34 @@ PROPS["C11"] = {
                   "function of the message (checked by the oracle).",
     "assumptions": ["output buffer capacity only decides MessageTooLarge", "UTF-8 validity of Rust strings (type invariant)"],
 }
+
+
+PROPS["C13"] = {
+    "theorems": ["Narwhal.Theorems.C13", "Narwhal.Theorems.C13Table"],
+    "audit_files": ["Narwhal/Model/Sched.lean"],
+    "expect_theorems": ["Narwhal.Sched.C13_discipline_invariant", "Narwhal.Sched.C13_no_wedge", "Narwhal.Sched.C13_holder_can_run",
+                        "Narwhal.Sched.C13_abort_frees", "Narwhal.Sched.C13_cancel_frees", "Narwhal.Sched.C13_run_decreases",
+                        "Narwhal.Sched.C13_no_guard_across_await", "Narwhal.Sched.C13_handlers_disciplined", "Narwhal.Sched.C13_table_covers",
+                        "Narwhal.Sched.C13_handlers_never_wedge"],
+    "suites": {"lat": dict(LAT_SUITE, oracle_tags=["C13"])},
+    "rule": "per case: a populated server (3 users, 2 channels), then a burst of 2-6 requests / socket closes / re-identifications issued while every "
+            "modulator call is parked (handlers suspended at their await points holding their locks), released in random order with ok / error / "
+            "never (request_timeout fires), more operations in between; oracle: every request answered once or its connection closed within "
+            "request_timeout, canary connection served afterwards, wall-clock watchdog on the worker thread",
+    "trusted_base": ["modelled, not verified: the lock / suspension structure of the async handlers, extracted syntactically by the translator (syn) — "
+                     "a syntactic over-approximation of guard lifetimes; tokio's LocalSet scheduling and async-lock's RwLock are trusted "
+                     "(observation: async_lock readers chain-notify each other while a writer holds the lock, a busy wait that ends with the writer)",
+                     "only locks that are write-locked somewhere can block (the manager lock is read-only)"],
+    "level_text": "Proved in Lean for every set of handler programs respecting the lock discipline (a channel lock is acquired only while holding none; "
+                  "guards are released), every scheduler interleaving, every outcome / delay of every modulator call and every cancellation: the "
+                  "discipline is invariant; whenever no task waits for the modulator some unfinished task can run (no state in which tasks only wait "
+                  "for each other); the holder of a contended lock never itself waits for a lock; a cancelled, timed-out or failed task holds nothing; "
+                  "every scheduled action shortens the remaining work. Table obligations regenerated from the source on every run: the programs of "
+                  "the real handlers respect the discipline and no DashMap guard is alive across an .await. Tied dynamically by the latency suite "
+                  "on the real server (answers within request_timeout, canary, thread watchdog).",
+    "level_note": "Partial: fairness of tokio's scheduler and the real blocking behaviour of threads are not modelled. Known findings recorded in DESIGN.md "
+                  "(D21 a writer blocked inside a socket write never polls its close branch; D25 writers hold-and-wait on the message pool) concern the "
+                  "outbound path, which this model does not cover. The in-flight slot is released when the request task ends by reply, error, timeout or "
+                  "cancellation (conn.rs submit_request; exercised by the lat and limits suites).",
+    "assumptions": ["each DashMap operation is atomic and short; the worker runs one task at a time"],
+}
